@@ -694,9 +694,13 @@ func runCloudEvents(rc *RunCtx) {
 			return fmt.Sprintf("hmac(%s,%x)", k, fnv(string(b))), nil
 		}
 	}
+	hasSigner := signerMode != 0
+	lateSigner := signerMode == 0 && tp.Choose(2, "late-signer") == 0 // installed by Rotate after some events
+	if hasSigner || lateSigner {
+		ff.SignEventTypes = []string{"signed-type", "other-signed"}
+	}
 	if signerMode != 0 {
 		ff.Signer = mkSigner(key)
-		ff.SignEventTypes = []string{"signed-type", "other-signed"}
 		if tp.Choose(3, "failing") == 0 {
 			for i := 0; i < 3; i++ {
 				failAt[1+tp.Choose(6, "failat")] = true
@@ -762,7 +766,8 @@ func runCloudEvents(rc *RunCtx) {
 			if kind == 1 {
 				wantData = payload
 			}
-			if signerMode != 0 && tp.Choose(4, "rotate") == 0 {
+			if (hasSigner || lateSigner) && tp.Choose(4, "rotate") == 0 {
+				hasSigner = true
 				key = fmt.Sprintf("k%d", i+2)
 				if err := ff.Rotate(mkSigner(key)); err != nil {
 					rc.Failf("C18.rotate", "", "Rotate failed: %v", err)
@@ -788,7 +793,7 @@ func runCloudEvents(rc *RunCtx) {
 				}
 				continue
 			}
-			mustSign := signerMode != 0 && (typ == "signed-type" || typ == "other-signed")
+			mustSign := hasSigner && (typ == "signed-type" || typ == "other-signed")
 			signerFailed := mustSign && failAt[signBefore+1]
 			if signerFailed {
 				simrt.Probe("ce.signer-failed")
